@@ -89,7 +89,8 @@ def plan(tier, seed):
             iters = 20 if (tier == 'thorough' or r % 3 == 0) else int(pick([3, 5, 10]))
             if kind == 'cbmm':
                 iters = int(pick([2, 3, 5]))
-            cases.append(dict(kind=kind, K=K, D=D, E=E, N=N, lead=lead, blur=blur, pert=float(10 ** rng.uniform(-4, -2)),
+            cases.append(dict(kind=kind, K=K, D=D, E=E, N=N, lead=lead, blur=blur, pert=float(10 ** rng.uniform(-9 if kind != 'cbmm' else -4, -2)),   # cBMM: a (nearly) rank-one class scatter makes its trainer raise by design (assert / least_squares)
+                             
                               iters=iters, opts=o, rs=[seed, 3, i]))
             i += 1
     return cases
